@@ -265,4 +265,144 @@ def roundTrip (L : Lib) (name : Str) (value : CVal) (secret : Bytes) : Except CE
   | .error e => (.error e, [])
   | .ok jar => getCookie L (clientHeader (emit jar)) name secret
 
+/-! ### the jar through `BaseResponse.copy()` and `HTTPResponse.apply()`
+
+`copy()` renders the jar with `SimpleCookie.output(header='')` (morsels sorted by key, each as
+`" name=coded"`, joined by CR LF) and loads that text into a fresh `SimpleCookie`; the coded value
+of the new morsel is the raw text the tokeniser captured.  `apply()` hands the jar object of the
+raised response to the live response when it is non-empty.  `redirect()` is
+`response.copy(cls=HTTPResponse)` raised, i.e. copy then apply. -/
+
+/-- `a < b` for Python `str` (lexicographic by code point) -/
+def strLt : Str → Str → Bool
+  | [], [] => false
+  | [], _ :: _ => true
+  | _ :: _, [] => false
+  | x :: a, y :: b => if x.toNat < y.toNat then true else if y.toNat < x.toNat then false else strLt a b
+
+def insertByKey (e : Str × Str) : Jar → Jar
+  | [] => [e]
+  | h :: t => if strLt e.1 h.1 then e :: h :: t else h :: insertByKey e t
+
+/-- `sorted(self.items())` (keys are unique) -/
+def sortJar (jar : Jar) : Jar := jar.foldr insertByKey []
+
+/-- `self._cookies.output(header='')` -/
+def renderJar (jar : Jar) : Str :=
+  "\r\n".toList.intercalate ((sortJar jar).map fun (n, coded) => ' ' :: (n ++ '=' :: coded))
+
+/-- second phase of `__parse_string`, keeping the raw (coded) value of each morsel -/
+def applyItemsRaw : List Item → Jar → Except CErr Jar
+  | [], jar => .ok jar
+  | .attr k :: r, jar => if isReserved k then applyItemsRaw r jar else .error .cookieError
+  | .keyval k v :: r, jar =>
+    if isReserved k || !isLegalKey k then .error .cookieError
+    else applyItemsRaw r (jarSet jar k v)
+
+/-- `SimpleCookie().load(text)` as name → coded value -/
+def parseCookiesRaw (hdr : Str) : Except CErr Jar :=
+  match scan (hdr.length + 1) hdr false [] with
+  | none => .ok []
+  | some items => applyItemsRaw items []
+
+/-- the jar of `response.copy(cls)` -/
+def copyJar (jar : Jar) : Except CErr Jar :=
+  if jar.isEmpty then .ok [] else parseCookiesRaw (renderJar jar)
+
+/-- `HTTPResponse.apply`: `if self._cookies: response._cookies = self._cookies` -/
+def applyJar (resp raised : Jar) : Jar := if raised.isEmpty then resp else raised
+
+/-- how the response that carries the cookies reaches `start_response` -/
+inductive EmitPath
+  | direct      -- handler returns normally
+  | copy        -- `raise response.copy(cls=HTTPResponse)`
+  | copy2       -- a copy of the copy
+  | redirect    -- `redirect(url)` after `set_cookie`
+  | raised      -- a fresh `HTTPResponse` with its own cookies is raised
+  | errpage     -- `HTTPError`/`abort` after `set_cookie` (error page rendered, cookies stay)
+  deriving Repr, DecidableEq
+
+/-- the jar `headerlist` emits from: `respJar` = cookies set on the live response, `raisedJar` =
+cookies set on the raised object (only for `raised`) -/
+def emitVia (path : EmitPath) (respJar raisedJar : Jar) : Except CErr Jar :=
+  match path with
+  | .direct => .ok respJar
+  | .errpage => .ok respJar
+  | .copy => (copyJar respJar).map fun c => applyJar respJar c
+  | .redirect => (copyJar respJar).map fun c => applyJar respJar c
+  | .copy2 => do
+    let c ← copyJar respJar
+    let c2 ← copyJar c
+    pure (applyJar respJar c2)
+  | .raised => .ok (applyJar respJar raisedJar)
+
+/-! ### one request object read several times (`cache_in`, `__setitem__`, `__delitem__`, `copy`) -/
+
+/-- a request as far as cookies go: the `HTTP_COOKIE` entry of its environ and the cached
+`ombott.request.cookies` entry (a failed parse caches nothing) -/
+structure Req where
+  hdr : Option Str
+  cache : Option (List (Str × Str))
+  deriving Repr, DecidableEq
+
+/-- `request.cookies` -/
+def Req.cookies (L : Lib) (r : Req) : Except CErr (List (Str × Str)) × Req :=
+  match r.cache with
+  | some c => (.ok c, r)
+  | none =>
+    match L.load (r.hdr.getD []) with           -- `_env_get('HTTP_COOKIE', '')`
+    | .ok c => (.ok c, { r with cache := some c })
+    | .error e => (.error e, r)
+
+/-- `request.get_cookie(key, secret=secret)` on a live request object -/
+def Req.getCookie (L : Lib) (r : Req) (key : Str) (secret : Bytes) :
+    (Except CErr (Option CVal) × List Bytes) × Req :=
+  match r.cookies L with
+  | (.error e, r') => ((.error e, []), r')
+  | (.ok items, r') =>
+    (match dictGet items key with
+     | none => (.ok none, [])
+     | some value =>
+       if !secret.isEmpty && !value.isEmpty then
+         match cookieDecode L (utf8Enc value) secret with
+         | (.error e, calls) => (.error e, calls)
+         | (.ok none, calls) => (.ok none, calls)
+         | (.ok (some (n, v)), calls) => (if n == key then .ok (some v) else .ok none, calls)
+       else (if value.isEmpty then .ok none else .ok (some (.text value)), []), r')
+
+def cookieKey : Str := "HTTP_COOKIE".toList
+
+/-- `request[key] = value`: an unchanged value is a no-op; otherwise `_on_env_changed` drops the
+cached cookies for every key that starts with `HTTP_` -/
+def Req.setItem (r : Req) (key value : Str) : Req :=
+  if key == cookieKey then
+    if r.hdr == some value then r else { hdr := some value, cache := none }
+  else if "HTTP_".toList.isPrefixOf key then { r with cache := none }
+  else r
+
+/-- `del request[key]`: `self[key] = ""` then `del self.environ[key]` -/
+def Req.delItem (r : Req) (key : Str) : Req :=
+  let r' := r.setItem key []
+  if key == cookieKey then { r' with hdr := none } else r'
+
+inductive ReqOp
+  | get (i : Nat) (key : Str) (secret : Bytes)
+  | set (i : Nat) (key value : Str)
+  | del (i : Nat) (key : Str)
+  | copy                                   -- request 1 := request 0 `.copy()` (shallow environ copy)
+  deriving Repr
+
+/-- a handler working on the live request (index 0) and on a copy of it (index 1); the answers
+of the `get` operations in order -/
+def runReq (L : Lib) : Req → Req → List ReqOp → List (Except CErr (Option CVal) × List Bytes)
+  | _, _, [] => []
+  | r0, r1, .get i k s :: ops =>
+    if i == 0 then let (a, r) := r0.getCookie L k s; a :: runReq L r r1 ops
+    else let (a, r) := r1.getCookie L k s; a :: runReq L r0 r ops
+  | r0, r1, .set i k v :: ops =>
+    if i == 0 then runReq L (r0.setItem k v) r1 ops else runReq L r0 (r1.setItem k v) ops
+  | r0, r1, .del i k :: ops =>
+    if i == 0 then runReq L (r0.delItem k) r1 ops else runReq L r0 (r1.delItem k) ops
+  | r0, _, .copy :: ops => runReq L r0 r0 ops
+
 end Ombott.Cookies
